@@ -616,8 +616,8 @@ func C05(c *core.Ctx, replay string) {
 		// ... and with freshly started gateway processes that have served identical histories
 		{name: "put_put", initPresent: true, sample: c.Pick(16, 120), fine: true, symmetric: true},
 		// writes of equal length (nothing but the bytes distinguishes them)
-		{name: "put_get_get", initPresent: true, sample: c.Pick(40, 300), same: true},
-		{name: "put_put_get", initPresent: true, sample: c.Pick(40, 300), same: true},
+		{name: "put_get_get", initPresent: true, sample: c.Pick(90, 300), same: true},
+		{name: "put_put_get", initPresent: true, sample: c.Pick(90, 300), same: true},
 		// two first-time uploads of a key (nothing at the name when either is admitted)
 		{name: "put_put", initPresent: false, sample: c.Pick(60, 400), fine: true},
 	}
